@@ -1943,9 +1943,15 @@ class AstEval:
         kwargs = {}
         for kw_arg in arg.keywords:
             if kw_arg.arg is None:
-                kwargs.update(await self.aeval(kw_arg.value))
+                new_kwargs = {}
+                new_kwargs.update(await self.aeval(kw_arg.value))
             else:
-                kwargs[kw_arg.arg] = await self.aeval(kw_arg.value)
+                new_kwargs = {kw_arg.arg: await self.aeval(kw_arg.value)}
+            for key, value in new_kwargs.items():
+                if key in kwargs:
+                    fname = arg.func.id if isinstance(arg.func, ast.Name) else "function"
+                    raise TypeError(f"{fname}() got multiple values for keyword argument '{key}'")
+                kwargs[key] = value
         #
         # try to deduce function name, although this only works in simple cases
         #
